@@ -3,6 +3,7 @@ package webrtc
 import (
 	"context"
 	"fmt"
+	"sort"
 	"strings"
 	"sync"
 	"sync/atomic"
@@ -17,12 +18,22 @@ import (
 // recompute it (ICE state callback, end of the DTLS start, Close). This part builds real loopback pairs whose
 // transports are driven into every sub-state by generated faults (DTLS handshake failures of several kinds, ICE
 // failures, lost answers) and generated follow-up events (remote closes, remote ICE dies silently, local close),
-// under generated configurations (DisableCloseByDTLS, ICE timeouts, media mix). Oracles, per PeerConnection:
+// under generated configurations (DisableCloseByDTLS, ICE timeouts, media mix) and generated *application callbacks*:
+// every state callback an application can register on the update path (PeerConnection.OnICEConnectionStateChange,
+// ICETransport.OnConnectionStateChange, DTLSTransport.OnStateChange) and OnConnectionStateChange itself is, per side,
+// fast, slow by a generated duration (microseconds to a quarter second: shorter than, comparable with and longer than a
+// DTLS handshake) or gated (bounded) on the progress of another transport / of the other peer, for all or for one
+// generated state value. The library invokes these callbacks synchronously inside its own state handlers, so they
+// stretch the window between "a transport changed state" and "the PeerConnection re-aggregated" and let the other
+// transport move inside it. Oracles, per PeerConnection:
 //
 //	(a) quiescent aggregate: whenever the observable inputs (closed flag, ICEConnectionState(), DTLS transport State())
 //	    stand still, ConnectionState() must equal the independent W3C transcription of those inputs. A mismatch is a
 //	    violation only when the identical (inputs, state) snapshot persisted for the whole stale window although every
-//	    update site had been passed (operations queue drained when it can be drained) — a missed re-aggregation.
+//	    update site had been passed (operations queue drained when it can be drained, no application transport callback
+//	    still running) — a missed re-aggregation, or, when the stores show that the right aggregate had been reached and
+//	    was then replaced, an update computed from stale inputs. An agreeing snapshot is accepted as the rest state only
+//	    when it is stable and no application transport callback is running (the library's update follows its return).
 //	(b) every store to the state is a change (bracket events), and the handler is never invoked more often for a value
 //	    than the state changed to it.
 //
@@ -31,7 +42,103 @@ import (
 
 const c22LiveBase = 1000000 // case indices of part 4 (independent of the tier-dependent counts of parts 2/3)
 
+// application callback slots
+const (
+	c22CBPCICE        = iota // PeerConnection.OnICEConnectionStateChange
+	c22CBICETransport        // ICETransport.OnConnectionStateChange
+	c22CBDTLS                // DTLSTransport.OnStateChange (invoked with the transport's lock held)
+	c22CBPCState             // PeerConnection.OnConnectionStateChange
+	c22NCB
+)
+
+var c22CBNames = [c22NCB]string{"pc-ice", "ice-transport", "dtls", "pc-state"} //nolint:gochecknoglobals
+
+// the state values each callback can be told
+var c22CBStates = [c22NCB][]string{ //nolint:gochecknoglobals
+	{"checking", "connected", "completed", "disconnected", "failed", "closed"},
+	{"checking", "connected", "completed", "disconnected", "failed", "closed"},
+	{"connecting", "connected", "failed", "closed"},
+	{"connecting", "connected", "disconnected", "failed", "closed"},
+}
+
+// gates: what a gated callback waits for (bounded by d). They read only what an application sees through its own
+// callbacks and ConnectionState() — never a library lock (the DTLS callback runs with the DTLS transport locked).
+var c22Gates = []string{"own-dtls-settled", "own-ice-settled", "own-pc-settled", "peer-dtls-settled", "peer-pc-settled"} //nolint:gochecknoglobals
+
+// c22Beh is the generated behaviour of one application callback for one state value.
+type c22Beh struct {
+	on   string        // "*" or the state value the behaviour applies to
+	mode string        // sleep | gate
+	d    time.Duration // sleep: duration; gate: longest wait
+	gate string
+}
+
+func (c c22Beh) String() string {
+	if c.mode == "sleep" {
+		return fmt.Sprintf("%s:sleep(%s)", c.on, c.d)
+	}
+
+	return fmt.Sprintf("%s:gate(%s≤%s)", c.on, c.gate, c.d)
+}
+
+// c22CB is the generated behaviour of one application callback: nothing listed = fast (recording only).
+type c22CB []c22Beh
+
+func (c c22CB) forState(state string) (c22Beh, bool) {
+	for _, b := range c {
+		if b.on == state || b.on == "*" {
+			return b, true
+		}
+	}
+
+	return c22Beh{}, false
+}
+
+func c22GenBeh(r *kit.Rand, slot int, on string) c22Beh {
+	b := c22Beh{on: on}
+	if r.Chance(0.55) {
+		b.mode = "sleep"
+		switch x := r.Intn(100); {
+		case x < 25: // scale of the library's own critical sections
+			b.d = time.Duration(r.Range(20, 2000)) * time.Microsecond
+		case x < 60: // scale of a loopback DTLS handshake
+			b.d = time.Duration(r.Range(2, 40)) * time.Millisecond
+		default: // longer than connection establishment
+			b.d = time.Duration(r.Range(40, 250)) * time.Millisecond
+		}
+
+		return b
+	}
+	b.mode = "gate"
+	b.d = time.Duration(r.Range(100, 600)) * time.Millisecond
+	gates := c22Gates
+	if slot == c22CBDTLS {
+		gates = gates[1:] // the DTLS transport cannot progress while its own callback runs
+	}
+	b.gate = kit.Pick(r, gates)
+
+	return b
+}
+
+func c22GenCB(r *kit.Rand, slot int) c22CB {
+	switch x := r.Intn(100); {
+	case x < 30: // fast
+		return nil
+	case x < 45: // the same behaviour whatever the state
+		return c22CB{c22GenBeh(r, slot, "*")}
+	}
+	var cb c22CB // per state value
+	for _, st := range c22CBStates[slot] {
+		if r.Chance(0.45) {
+			cb = append(cb, c22GenBeh(r, slot, st))
+		}
+	}
+
+	return cb
+}
+
 type c22Side struct {
+	cb            [c22NCB]c22CB
 	noCloseByDTLS bool
 	disc, failed  time.Duration
 	keep          time.Duration
@@ -52,14 +159,25 @@ type c22Scenario struct {
 	pwd      [2]string
 }
 
-func (s *c22Scenario) String() string {
-	sd := func(x c22Side) string {
-		return fmt.Sprintf("{noCloseByDTLS=%v disc=%s failed=%s keep=%s ctx=%s srtp=%v ciphers=%v}",
-			x.noCloseByDTLS, x.disc, x.failed, x.keep, x.ctxTimeout, x.srtp, x.ciphers)
+func (x c22Side) callbacks() string {
+	cbs := ""
+	for k, c := range x.cb {
+		if len(c) > 0 {
+			cbs += " " + c22CBNames[k] + "=" + fmt.Sprint([]c22Beh(c))
+		}
 	}
 
+	return strings.TrimSpace(cbs)
+}
+
+func (x c22Side) String() string {
+	return fmt.Sprintf("{noCloseByDTLS=%v disc=%s failed=%s keep=%s ctx=%s srtp=%v ciphers=%v callbacks:[%s]}",
+		x.noCloseByDTLS, x.disc, x.failed, x.keep, x.ctxTimeout, x.srtp, x.ciphers, x.callbacks())
+}
+
+func (s *c22Scenario) String() string {
 	return fmt.Sprintf("live fault=%s dir=%s A=%s B=%s dc=%v audio=%v post=%s@%d fp=%s/%s pwd=%s/%s",
-		s.fault, s.dir, sd(s.side[0]), sd(s.side[1]), s.dc, s.audio, s.post, s.postSide,
+		s.fault, s.dir, s.side[0], s.side[1], s.dc, s.audio, s.post, s.postSide,
 		firstN(s.fpHex[0], 8), firstN(s.fpHex[1], 8), s.pwd[0], s.pwd[1])
 }
 
@@ -148,6 +266,13 @@ func c22GenScenario(r *kit.Rand) *c22Scenario { //nolint:cyclop
 	sc.postSide = r.Intn(2)
 	sc.fpHex = [2]string{c22RandHexFP(r), c22RandHexFP(r)}
 	sc.pwd = [2]string{c22RandToken(r, 32), c22RandToken(r, 32)}
+	// application callbacks (drawn last: the dimensions above are the same function of the case as before)
+	apps := r.Chance(0.85) // the rest keeps the plain "recording only" application
+	for k := 0; k < 2 && apps; k++ {
+		for slot := 0; slot < c22NCB; slot++ {
+			sc.side[k].cb[slot] = c22GenCB(r, slot)
+		}
+	}
 
 	return sc
 }
@@ -202,6 +327,104 @@ type c22Peer struct {
 	ice  []ICEConnectionState // as delivered to OnICEConnectionStateChange
 	dtls []DTLSTransportState // as delivered to the DTLS transport's OnStateChange
 	bad  bool                 // a stale aggregate was already reported for this peer
+
+	tl       []c22Ev // logical-clock timeline of the application callbacks (enter/exit)
+	iceT     int64   // logical time at which the latest ICE / DTLS state value was delivered
+	dtlsT    int64
+	side     c22Side
+	other    *c22Peer
+	inflight atomic.Int32 // application transport callbacks (pc-ice, ice-transport, dtls) currently running
+	slowRuns [c22NCB]atomic.Int32
+	gatesRun sync.Map
+	gateMet  atomic.Int32
+	gateExp  atomic.Int32
+}
+
+type c22Ev struct {
+	t    int64
+	what string
+}
+
+func (p *c22Peer) mark(what string) int64 {
+	t := kit.Stamp()
+	p.mu.Lock()
+	p.tl = append(p.tl, c22Ev{t, what})
+	p.mu.Unlock()
+
+	return t
+}
+
+// timeline merges the callback timeline with the state stores (same logical clock).
+func (p *c22Peer) timeline(stores []kit.Event) string {
+	p.mu.Lock()
+	evs := append([]c22Ev{}, p.tl...)
+	p.mu.Unlock()
+	for _, e := range stores {
+		evs = append(evs, c22Ev{e.T, fmt.Sprintf("STORE %s→%s", PeerConnectionState(e.A), PeerConnectionState(e.B))})
+	}
+	sort.Slice(evs, func(i, j int) bool { return evs[i].t < evs[j].t })
+	parts := make([]string, len(evs))
+	for i, e := range evs {
+		parts[i] = e.what
+	}
+
+	return strings.Join(parts, " | ")
+}
+
+func (p *c22Peer) lastEvents() (ice ICEConnectionState, dtls DTLSTransportState) {
+	p.mu.Lock()
+	defer p.mu.Unlock()
+	ice, dtls = ICEConnectionStateNew, DTLSTransportStateNew
+	if n := len(p.ice); n > 0 {
+		ice = p.ice[n-1]
+	}
+	if n := len(p.dtls); n > 0 {
+		dtls = p.dtls[n-1]
+	}
+
+	return ice, dtls
+}
+
+// gateOpen evaluates a gate with what an application knows: the states its callbacks were told and ConnectionState().
+func (p *c22Peer) gateOpen(gate string) bool {
+	q := p
+	if strings.HasPrefix(gate, "peer-") {
+		q = p.other
+	}
+	if q == nil {
+		return true
+	}
+	ice, dtls := q.lastEvents()
+	switch strings.SplitN(gate, "-", 2)[1] {
+	case "dtls-settled":
+		return dtls == DTLSTransportStateConnected || dtls == DTLSTransportStateFailed || dtls == DTLSTransportStateClosed
+	case "ice-settled":
+		return ice != ICEConnectionStateNew && ice != ICEConnectionStateChecking
+	default: // pc-settled
+		cs := q.pc.ConnectionState()
+
+		return cs != PeerConnectionStateNew && cs != PeerConnectionStateConnecting
+	}
+}
+
+// behave runs the generated behaviour of callback slot for the delivered state value.
+func (p *c22Peer) behave(slot int, state string) {
+	cb, ok := p.side.cb[slot].forState(state)
+	if !ok {
+		return
+	}
+	p.slowRuns[slot].Add(1)
+	switch cb.mode {
+	case "sleep":
+		time.Sleep(cb.d)
+	case "gate":
+		p.gatesRun.Store(c22CBNames[slot]+":"+cb.gate, true)
+		if c22WaitFor(cb.d, func() bool { return p.gateOpen(cb.gate) }) {
+			p.gateMet.Add(1)
+		} else {
+			p.gateExp.Add(1)
+		}
+	}
 }
 
 func (p *c22Peer) prev() (ICEConnectionState, DTLSTransportState) {
@@ -242,17 +465,39 @@ func c22NewPeer(name string, sd c22Side) *c22Peer {
 			})
 		}
 	}})
-	p := &c22Peer{name: name, pc: pc, rec: &c22Rec{}}
-	pc.OnConnectionStateChange(p.rec.handler)
+	p := &c22Peer{name: name, pc: pc, rec: &c22Rec{}, side: sd}
+	pc.OnConnectionStateChange(func(s PeerConnectionState) {
+		p.rec.handler(s)
+		p.behave(c22CBPCState, s.String())
+	})
 	pc.OnICEConnectionStateChange(func(s ICEConnectionState) {
+		p.inflight.Add(1)
+		defer p.inflight.Add(-1)
+		t := p.mark("pc-ice(" + s.String() + ")>")
 		p.mu.Lock()
 		p.ice = append(p.ice, s)
+		p.iceT = t
 		p.mu.Unlock()
+		p.behave(c22CBPCICE, s.String())
+		p.mark("<pc-ice(" + s.String() + ")")
+	})
+	pc.SCTP().Transport().ICETransport().OnConnectionStateChange(func(s ICETransportState) {
+		p.inflight.Add(1)
+		defer p.inflight.Add(-1)
+		p.mark("ice-transport(" + s.String() + ")>")
+		p.behave(c22CBICETransport, s.String())
+		p.mark("<ice-transport(" + s.String() + ")")
 	})
 	pc.SCTP().Transport().OnStateChange(func(s DTLSTransportState) {
+		p.inflight.Add(1)
+		defer p.inflight.Add(-1)
+		t := p.mark("dtls(" + s.String() + ")>")
 		p.mu.Lock()
 		p.dtls = append(p.dtls, s)
+		p.dtlsT = t
 		p.mu.Unlock()
+		p.behave(c22CBDTLS, s.String())
+		p.mark("<dtls(" + s.String() + ")")
 	})
 
 	return p
@@ -293,29 +538,35 @@ func c22TryDrain(pc *PeerConnection, d time.Duration) bool {
 
 const (
 	c22StaleWindow = 1500 * time.Millisecond
+	c22AgreeWindow = 30 * time.Millisecond
 	c22Watchdog    = 6 * time.Second
 )
 
-// c22Quiescent returns the first snapshot that agrees with the W3C aggregate, or — agree=false, stale=true — a
-// mismatching snapshot that did not move for c22StaleWindow; stale=false means the inputs never stood still.
-func c22Quiescent(pc *PeerConnection) (snap c22Snap, agree, stale, drained bool) {
+// c22Quiescent returns a snapshot that agrees with the W3C aggregate and stood still, with no application transport
+// callback running, for c22AgreeWindow, or — agree=false, stale=true — a mismatching snapshot that did not move for
+// c22StaleWindow under the same conditions; stale=false means the inputs never stood still.
+func c22Quiescent(p *c22Peer) (snap c22Snap, agree, stale, drained bool) {
+	pc := p.pc
 	deadline := time.Now().Add(c22Watchdog)
 	var last c22Snap
 	var since time.Time
 	have := false
 	fenced := false
 	for {
+		n1 := p.inflight.Load()
 		s, ok := c22Snapshot(pc)
-		if ok && s.cs == c22Spec(s.closed, s.ice, s.dtls) {
-			return s, true, false, drained
-		}
+		// a running application callback sits between a transport's state change and the library's update for it
+		ok = ok && n1 == 0 && p.inflight.Load() == 0
+		agrees := s.cs == c22Spec(s.closed, s.ice, s.dtls)
 		now := time.Now()
 		switch {
 		case !ok:
 			have = false
 		case !have || s != last:
 			last, since, have = s, now, true
-		case now.Sub(since) >= c22StaleWindow:
+		case agrees && now.Sub(since) >= c22AgreeWindow:
+			return s, true, false, drained
+		case !agrees && now.Sub(since) >= c22StaleWindow:
 			if !fenced { // pass the "end of startTransports" update site before judging
 				fenced = true
 				drained = c22TryDrain(pc, 2*time.Second)
@@ -355,11 +606,13 @@ func c22NormICE(s ICEConnectionState) string {
 }
 
 // c22CheckPeer applies oracle (a) to one peer at the end of a phase.
-func c22CheckPeer(run *kit.Run, p *c22Peer, sc *c22Scenario, phase string, idx int) {
+func c22CheckPeer(run *kit.Run, sched *kit.Sched, p *c22Peer, sc *c22Scenario, phase string, idx int) {
 	if p.bad {
 		return
 	}
-	snap, agree, stale, drained := c22Quiescent(p.pc)
+	p.mark("CHECK>" + phase)
+	snap, agree, stale, drained := c22Quiescent(p)
+	p.mark(fmt.Sprintf("<CHECK agree=%v stale=%v %s", agree, stale, snap))
 	run.Count("live_quiescent_checks", 1)
 	switch {
 	case agree:
@@ -380,30 +633,62 @@ func c22CheckPeer(run *kit.Run, p *c22Peer, sc *c22Scenario, phase string, idx i
 		want := c22Spec(snap.closed, snap.ice, snap.dtls)
 		prevICE, prevDTLS := p.prev()
 		cause := "unexplained"
+		// which input does the resting state not reflect: the state is the aggregate with the previous value of …
+		byDTLS := c22Spec(snap.closed, snap.ice, prevDTLS) == snap.cs && prevDTLS != snap.dtls
+		byICE := c22Spec(snap.closed, prevICE, snap.dtls) == snap.cs && prevICE != snap.ice
+		if byDTLS && byICE { // both explain it: the change that was not taken into account is the more recent one
+			p.mu.Lock()
+			byDTLS, byICE = p.dtlsT > p.iceT, p.dtlsT <= p.iceT
+			p.mu.Unlock()
+		}
 		switch {
 		case snap.closed && snap.cs != PeerConnectionStateClosed:
 			cause = "after-close"
-		case c22Spec(snap.closed, snap.ice, prevDTLS) == snap.cs && prevDTLS != snap.dtls:
+		case byDTLS:
 			cause = "after-dtls-" + snap.dtls.String()
-		case c22Spec(snap.closed, prevICE, snap.dtls) == snap.cs && prevICE != snap.ice:
+		case byICE:
 			cause = "after-ice-" + c22NormICE(snap.ice)
 		}
 		sig := fmt.Sprintf("live-not-reaggregated:%s:stuck-%s-want-%s", cause, snap.cs, want)
+		// Different cause: the state HAD been the aggregate of the resting inputs and a later update replaced it —
+		// that update was computed from inputs older than the ones the state already reflected.
+		var stores []PeerConnectionState
+		storeEvs := sched.Events("pc.connectionState", p.pc)
+		for _, e := range storeEvs {
+			stores = append(stores, PeerConnectionState(e.B))
+		}
+		what := "missed re-aggregation"
+		if n := len(stores); n >= 2 && stores[n-1] == snap.cs && stores[n-2] == want {
+			staleIn := "unexplained"
+			switch {
+			case strings.HasPrefix(cause, "after-dtls-"):
+				staleIn = fmt.Sprintf("stale-dtls-%s-after-%s", prevDTLS, snap.dtls)
+			case strings.HasPrefix(cause, "after-ice-"):
+				staleIn = fmt.Sprintf("stale-ice-%s-after-%s", c22NormICE(prevICE), c22NormICE(snap.ice))
+			}
+			sig = fmt.Sprintf("live-stale-overwrite:%s:%s-back-to-%s", staleIn, want, snap.cs)
+			what = "right aggregate replaced by an update computed from stale inputs"
+			run.Seen("live_stale_overwrite_callbacks", sc.side[map[string]int{"A": 0, "B": 1}[p.name]].callbacks())
+		}
 		detail := p.history()
+		detail["stores"] = fmt.Sprint(stores)
+		detail["diagnosis"] = what
+		detail["timeline"] = p.timeline(storeEvs)
 		detail["scenario"] = sc.String()
 		detail["phase"] = phase
 		detail["peer"] = p.name
 		detail["snapshot"] = snap.String()
 		detail["want"] = want.String()
 		detail["ops_drained"] = drained
-		run.Violation(sig, fmt.Sprintf("live pair, peer %s, phase %s: inputs stood still at closed=%v ice=%s dtls=%s for %s (operations queue drained=%v) "+
-			"but ConnectionState()=%s, W3C aggregate=%s; fault=%s noCloseByDTLS=%v", p.name, phase, snap.closed, snap.ice, snap.dtls,
-			c22StaleWindow, drained, snap.cs, want, sc.fault, sc.side[map[string]int{"A": 0, "B": 1}[p.name]].noCloseByDTLS), idx, detail)
+		side := sc.side[map[string]int{"A": 0, "B": 1}[p.name]]
+		run.Violation(sig, fmt.Sprintf("live pair, peer %s, phase %s: inputs stood still at closed=%v ice=%s dtls=%s for %s (operations queue drained=%v, "+
+			"no application callback running) but ConnectionState()=%s, W3C aggregate=%s (%s; state stores %v); fault=%s side=%s", p.name, phase,
+			snap.closed, snap.ice, snap.dtls, c22StaleWindow, drained, snap.cs, want, what, stores, sc.fault, side), idx, detail)
 	}
 }
 
 func c22Live(run *kit.Run, sched *kit.Sched) { //nolint:gocognit,cyclop,maintidx
-	n := kit.N(72, 800)
+	n := kit.N(120, 1000)
 	workers := 8
 	sched.Perturb(0)
 	sched.ResetEvents()
@@ -434,6 +719,7 @@ func c22LiveCase(run *kit.Run, sched *kit.Sched, idx int, samples *atomic.Int64)
 	r := run.CaseRand(idx)
 	sc := c22GenScenario(r)
 	a, b := c22NewPeer("A", sc.side[0]), c22NewPeer("B", sc.side[1])
+	a.other, b.other = b, a
 	peers := []*c22Peer{a, b}
 	defer rigClose(a.pc, b.pc)
 	run.Seen("live_fault_classes", sc.fault)
@@ -508,7 +794,7 @@ func c22LiveCase(run *kit.Run, sched *kit.Sched, idx int, samples *atomic.Int64)
 		run.Seen("live_target_missed", sc.fault+":setup")
 	}
 	for _, p := range peers {
-		c22CheckPeer(run, p, sc, "setup:"+sc.fault, idx)
+		c22CheckPeer(run, sched, p, sc, "setup:"+sc.fault, idx)
 	}
 
 	// ---- phase 2: follow-up event
@@ -538,7 +824,7 @@ func c22LiveCase(run *kit.Run, sched *kit.Sched, idx int, samples *atomic.Int64)
 			}
 		}
 		for _, p := range peers {
-			c22CheckPeer(run, p, sc, "post:"+sc.post, idx)
+			c22CheckPeer(run, sched, p, sc, "post:"+sc.post, idx)
 		}
 	}
 
@@ -569,7 +855,8 @@ func c22LiveCase(run *kit.Run, sched *kit.Sched, idx int, samples *atomic.Int64)
 	nontrivial := false
 	for _, p := range peers {
 		evs := sched.Events("pc.connectionState", p.pc)
-		c22WaitFor(2*time.Second, func() bool { return len(p.rec.snapshot()) >= len(evs) })
+		// (a slow application handler delays the following ones: they are delivered in order, one at a time)
+		c22WaitFor(c22Watchdog, func() bool { return len(p.rec.snapshot()) >= len(evs) })
 		seen := p.rec.snapshot()
 		remaining := map[PeerConnectionState]int{}
 		var stores []PeerConnectionState
@@ -625,6 +912,27 @@ func c22LiveCase(run *kit.Run, sched *kit.Sched, idx int, samples *atomic.Int64)
 			h["stores"] = fmt.Sprint(stores)
 			run.Sample(h)
 		}
+	}
+	for k, p := range peers {
+		for slot := 0; slot < c22NCB; slot++ {
+			cb := sc.side[k].cb[slot]
+			if len(cb) == 0 {
+				run.Seen("live_callback_behaviours", c22CBNames[slot]+":fast")
+			}
+			for _, b := range cb {
+				run.Seen("live_callback_behaviours", c22CBNames[slot]+":"+b.mode+"@"+b.on)
+			}
+			if n := int(p.slowRuns[slot].Load()); n > 0 {
+				run.Count("live_slow_callback_runs:"+c22CBNames[slot], n)
+			}
+		}
+		p.gatesRun.Range(func(k, _ any) bool {
+			run.Seen("live_gates_exercised", k.(string)) //nolint:forcetypeassert
+
+			return true
+		})
+		run.Count("live_gates_opened", int(p.gateMet.Load()))
+		run.Count("live_gates_expired", int(p.gateExp.Load()))
 	}
 	run.Count("live_cases", 1)
 	run.Case(sc.String(), nontrivial)
